@@ -54,6 +54,12 @@ class _SweepBase(Contract):
             H = make_level(cls, inst['M'], mk, kind=self.kind, tau=inst.get('tau', False), quad=inst.get('quad', 'RADAU-RIGHT'),
                            do_coll_update=inst.get('coll_update'), name='H')
             sw.level = H
+            # ... and with OTHER preconditioner matrices (sweep-index dependent preconditioners are replaced between sweeps)
+            keep = {a: getattr(sw, a) for a in ('QI', 'QE') if hasattr(sw, a)}
+            if self.has_QI:
+                sw.QI = mk.matrix('H.QI', M + 1, M + 1, lower)
+            if self.has_QE:
+                sw.QE = mk.matrix('H.QE', M + 1, M + 1, strictly_lower0)
             try:
                 sw.update_nodes()
                 try:
@@ -62,6 +68,8 @@ class _SweepBase(Contract):
                     pass  # the mass-matrix sweeper refuses the quadrature end point by design (its own contract)
             finally:
                 sw.level = L
+                for a, v in keep.items():
+                    setattr(sw, a, v)
         return L
 
     history_instances = True
